@@ -249,8 +249,8 @@ WriteSlot ==
 
 (* The write cache drains when full: at any time during writing, some prefix becomes durable. *)
 Drain ==
-  /\ p.pc = "write" /\ p.cur # Null /\ ~p.cur.err /\ p.cur.dur < p.cur.pos
-  /\ \/ /\ \E d \in (p.cur.dur + 1)..p.cur.pos : p' = [p EXCEPT !.cur.dur = d]
+  /\ p.pc \in {"write", "flush"} /\ p.cur # Null /\ ~p.cur.err /\ p.cur.dur < p.cur.pos
+  /\ \/ /\ \E d \in p.cur.dur..p.cur.pos : p' = [p EXCEPT !.cur.dur = d]     \* d = dur: a write that completes no unit
         /\ g' = g
      \/ /\ CanFault /\ Fault /\ p' = [p EXCEPT !.cur.err = TRUE]
   /\ UNCHANGED fsvars
